@@ -32,7 +32,7 @@ M = Monitor(
     deciding=["lsq_linear.lsq_linear", "lsq_linear.lsq_linear_excitation", "estimator.ReceptorEstimator.fit"],
     required_cells={"all": ["model=poisson", "model=excitation", "baseline=zero", "baseline=scalar", "baseline=vector",
                             "K=none", "K=scalar", "K=vector", "target=in", "target=out", "ub=finite", "ub=inf",
-                            "agree-in-gamut"]},
+                            "agree-in-gamut", "batch=many"]},
     assumptions=["Poisson NLL = -sum_i w_i (b_i log q_i - q_i), q = K(Ax+baseline) (targets not baseline-subtracted)",
                  "excitation objective = max_i |b_i/(1+b_i) - q_i/(1+q_i)|, unit weights",
                  "tolerances: NLL 1e-3*(1+|NLL|); excitation 5e-3; reproduction 5e-2*max(1,|b|_inf) (2e-2 gaussian)"],
@@ -122,7 +122,10 @@ def gen_case(rng, i):
             b = (Mt @ x + c0) * np.exp(rng.normal(0, 0.8, m))
             T.append(np.clip(b, 0, 100)); cls.append("out")
     wk = "receptor" if (model == "poisson" and rng.integers(2)) else "none"
-    s.update({"B": np.array(T), "classes": cls, "model": model, "wkind": wk,
+    # the batch size is a performance setting of fit(): poisson is also exercised with batches (the excitation model
+    # couples the rows of a batch - C05 known finding - and is kept at its default of one)
+    bs = [1, 1, 2, "full"][rng.integers(4)] if model == "poisson" else 1
+    s.update({"B": np.array(T), "classes": cls, "model": model, "wkind": wk, "bs": bs,
               "W": rng.uniform(0.3, 3, m) if wk == "receptor" else None})
     return s
 
@@ -141,7 +144,9 @@ def chk_case(inp, c):
         c.cell("target=" + k)
     est = c.call(gen.make_estimator, dreye, inp, w=(1.0 if inp["W"] is None else inp["W"]),
                  _where="ReceptorEstimator+register_system")
-    out = c.call(est.fit, B.copy(), model=model, _where=f"ReceptorEstimator.fit(model={model})")
+    bs = inp.get("bs", 1)
+    c.cell("batch=" + ("1" if bs == 1 else "many"))
+    out = c.call(est.fit, B.copy(), model=model, batch_size=bs, _where=f"ReceptorEstimator.fit(model={model})")
     if not c.require(isinstance(out, tuple) and len(out) == 2, "returns (X, B_pred)", mechanism="return-type"):
         return
     X, Bp = np.asarray(out[0], float), np.asarray(out[1], float)
